@@ -223,26 +223,33 @@ def end_to_end(rng, workdir, res, k):
     dt = rng.choice(["float64", "int32", "int8", "complex128"])
     need = np.dtype(dt).itemsize * max(prod(src), prod(tgt))
     allowed = int(need * rng.choice([8, 10, 16, 40, 200]))
+    reserved = 0
+    if rng.random() < 0.5:
+        # a Spec with reserved memory: the planner's budget is what is left of allowed_mem after it
+        reserved = int(allowed * rng.choice([0.25, 0.5, 1.0, 3.0]))
+        allowed += reserved
     kw = {}
     if rng.random() < 0.4:
         kw["allow_irregular"] = rng.random() < 0.5
     if rng.random() < 0.3:
         kw["min_mem"] = int(allowed * rng.choice([0.0, 0.01, 0.05]))
-    case = {"e2e": {"shape": shape, "source_chunks": src, "target_chunks": tgt, "dtype": dt, "allowed_mem": allowed, "kw": kw}}
+    case = {"e2e": {"shape": shape, "source_chunks": src, "target_chunks": tgt, "dtype": dt, "allowed_mem": allowed, "reserved_mem": reserved, "kw": kw}}
     wd = os.path.join(workdir, f"e{k}")
     data = (np.arange(prod(shape)) % 251).reshape(shape).astype(dt)
     out = []
     storetrace.install()
     blockshape.install()
     try:
-        spec = cubed.Spec(work_dir=wd, allowed_mem=allowed)
+        spec = cubed.Spec(work_dir=wd, allowed_mem=allowed, reserved_mem=reserved)
         a = xp.asarray(data, chunks=src, spec=spec)
+        planned = False
         with warnings.catch_warnings():
             warnings.simplefilter("ignore")
             b = a.rechunk(tgt, **kw)
             want_chunks = cubed.utils.normalize_chunks(tgt, shape, dtype=data.dtype)
             if b.chunks != want_chunks:
                 out.append({"kind": "wrong-result-chunks", "msg": f"rechunk to {tgt} declares chunks {b.chunks}", "facts": {}, "case": case})
+            planned = True  # the planner accepted the request: its stages must now fit the Spec's memory
             fp = b.plan(optimize_graph=False)
             if fp.num_tasks > 600:
                 return out
@@ -256,7 +263,25 @@ def end_to_end(rng, workdir, res, k):
                 wr = blockshape.stop()
     except PostBroken as e:
         return [{"kind": "post-condition", "msg": f"end-to-end {case}: {e}", "facts": {"planner": "e2e"}, "case": case}]
-    except (ValueError, NotImplementedError):
+    except (ValueError, NotImplementedError) as e:
+        if planned and "exceeds allowed_mem" in str(e):
+            # The planner accepted the request and the memory check then refused a stage. With tiny budgets the
+            # few bytes of per-task bookkeeping arrays can do that legitimately, so the verdict is differential:
+            # the same request with no reserved memory and the same net budget must be refused as well.
+            res["counters"]["e2e_refused_by_memory_check_after_planning"] += 1
+            if reserved > 0:
+                try:
+                    with warnings.catch_warnings():
+                        warnings.simplefilter("ignore")
+                        a2 = xp.asarray(data, chunks=src, spec=cubed.Spec(work_dir=wd + "-twin", allowed_mem=allowed - reserved, reserved_mem=0))
+                        a2.rechunk(tgt, **kw).plan(optimize_graph=False).validate()
+                    twin_ok = True
+                except Exception:
+                    twin_ok = False
+                shutil.rmtree(wd + "-twin", ignore_errors=True)
+                if twin_ok:
+                    res["counters"]["e2e_rechunks"] += 1
+                    return out + [{"kind": "rechunk-stages-over-budget", "msg": f"end-to-end {case}: the planner returned stages that the Spec's memory check refuses ({str(e)[:120]}), while the same request with reserved_mem=0 and allowed_mem={allowed - reserved} (the same net budget) is planned and admitted", "facts": {"reserved": True}, "case": case}]
         res["counters"]["e2e_rejected"] += 1
         return out
     except BaseException as e:
@@ -265,6 +290,8 @@ def end_to_end(rng, workdir, res, k):
         pass
     res["evaluations"] += 1
     res["counters"]["e2e_rechunks"] += 1
+    if reserved:
+        res["counters"]["e2e_rechunks_with_reserved_mem"] += 1
     res["nontrivial"].append(gen.rhash(case))
     if not np.array_equal(np.asarray(got), data):
         out.append({"kind": "rechunk-changed-values", "msg": f"end-to-end {case}: values differ after rechunk", "facts": {}, "case": case})
@@ -290,7 +317,7 @@ def shards(tier, seed):
              "watchdog_s": TIMEOUT[tier] - 30} for i in range(ns)]
 
 
-EXTRA = ("planner_calls", "plans_returned", "stages_returned", "multi_stage_plans", "explicit_rejections", "e2e_rechunks",
+EXTRA = ("e2e_refused_by_memory_check_after_planning", "e2e_rechunks_with_reserved_mem", "planner_calls", "plans_returned", "stages_returned", "multi_stage_plans", "explicit_rejections", "e2e_rechunks",
          "e2e_rejected", "e2e_chunk_sets", "contract_evaluations_irregular", "contract_evaluations_regular", "exhaustive_cases")
 
 
@@ -334,8 +361,20 @@ def replay(rep, workdir):
         import cubed, cubed.array_api as xp
         data = (np.arange(prod(e["shape"])) % 251).reshape(e["shape"]).astype(e["dtype"])
         try:
-            a = xp.asarray(data, chunks=tuple(e["source_chunks"]), spec=cubed.Spec(work_dir=os.path.join(workdir, "r"), allowed_mem=e["allowed_mem"]))
-            got = a.rechunk(tuple(e["target_chunks"]), **e["kw"]).compute(optimize_graph=False)
+            a = xp.asarray(data, chunks=tuple(e["source_chunks"]), spec=cubed.Spec(work_dir=os.path.join(workdir, "r"), allowed_mem=e["allowed_mem"], reserved_mem=e.get("reserved_mem", 0)))
+            b = a.rechunk(tuple(e["target_chunks"]), **e["kw"])
+            try:
+                got = b.compute(optimize_graph=False)
+            except ValueError as ex:
+                if "exceeds allowed_mem" in str(ex) and e.get("reserved_mem", 0) > 0:
+                    try:
+                        a2 = xp.asarray(data, chunks=tuple(e["source_chunks"]), spec=cubed.Spec(work_dir=os.path.join(workdir, "r2"), allowed_mem=e["allowed_mem"] - e["reserved_mem"], reserved_mem=0))
+                        a2.rechunk(tuple(e["target_chunks"]), **e["kw"]).plan(optimize_graph=False).validate()
+                        res["violations"].append({"property": PROPERTY, "kind": "rechunk-stages-over-budget", "msg": str(ex)[:200], "facts": {}, "case": case})
+                    except Exception:
+                        pass
+                    return res
+                raise
             if not np.array_equal(np.asarray(got), data):
                 res["violations"].append({"property": PROPERTY, "kind": "rechunk-changed-values", "msg": "values differ", "facts": {}, "case": case})
         except (ValueError, NotImplementedError):
@@ -363,6 +402,7 @@ def finalize(tier, merged):
             ("multi-stage plans", c.get("multi_stage_plans", 0), 10000 if tier == "quick" else 150000),
             ("icontract post-condition evaluations", c.get("contract_evaluations_irregular", 0) + c.get("contract_evaluations_regular", 0), 250000 if tier == "quick" else 3000000),
             ("end-to-end rechunks computed", c.get("e2e_rechunks", 0), 400 if tier == "quick" else 8000),
+            ("of which under a Spec with reserved_mem > 0", c.get("e2e_rechunks_with_reserved_mem", 0), 120 if tier == "quick" else 2500),
         ],
         "coverage_extra": {"bounded_exhaustive_part": "all 1-D geometries with dim <= 8 and all 2-D geometries with dims <= 4 (source x target chunks), itemsize {1,8}, six memory settings, both planners"},
         "assumptions": ASSUMPTIONS,
